@@ -1759,7 +1759,7 @@ impl<const M0: u64, const M1: u64, const M2: u64, const M3: u64> ModInt256<M0, M
         // If d is in the [-2^128..+2^128] range, then we can return it
         // as is (most common case).
         if (d[2] == 0 && d[3] == 0)
-            || (d[2] == 0xFFFFFFFFFFFFFFFF && d[2] == 0xFFFFFFFFFFFFFFFF)
+            || (d[2] == 0xFFFFFFFFFFFFFFFF && d[3] == 0xFFFFFFFFFFFFFFFF)
         {
             let c0 = ((d[0] as u128) | ((d[1] as u128) << 64)) as i128;
             return (c0, c1);
